@@ -147,6 +147,18 @@ def insert_roundtrips(behs, rts, seed):
     return out
 
 
+def sample_of(beh, maxops=14, maxlen=700):
+    """a readable excerpt of one behaviour for the evidence file (large tables are abbreviated)"""
+    ops = json.loads(beh) if isinstance(beh, str) else beh
+    out = []
+    for o in ops[:maxops]:
+        txt = json.dumps(o)
+        out.append(o if len(txt) <= maxlen else {'ev': o['ev'], 'a_abbreviated': txt[:maxlen] + ' ...'})
+    if len(ops) > maxops:
+        out.append({'more_ops': len(ops) - maxops, 'kinds': sorted(set(o['ev'] for o in ops[maxops:]))})
+    return out
+
+
 def laws_job(law, n, workers=8, timeout=1500):
     return dict(kind='laws', name=f'laws_{law}_{n}', module='MC_Laws.tla', constants=dict(Law=law, N=n), invariants=['Inv'],
                 properties=[], workers=workers, timeout=timeout)
@@ -342,7 +354,7 @@ def run_job(job, prop, tier, seed):
         mism, stats = validate(job['name'], trace)
         return dict(traces_validated_against_impl=len(behs), events_validated=stats['events'] - len(behs),
                     unexamined_events=stats['skipped'], out_of_domain_events=stats['outofdomain'], mismatches=mism,
-                    samples=[json.loads(behs[len(behs) // 2])],
+                    samples=[sample_of(behs[len(behs) // 2])],
                     generator=dict(name=job['name'], constants=job['constants'], depth=job.get('depth'), simulate=job.get('simulate'),
                                    behaviours=len(behs), generator_states=r['distinct'], idstyle=job.get('style', 0),
                                    config=job.get('env', {})))
@@ -353,5 +365,5 @@ def run_job(job, prop, tier, seed):
         trace = replay('replayfile', [json.dumps(rp['ops'])], style=style,
                        extra_env=cfg_env(rs['milestone'] if rs.get('milestone', -1) >= 0 else None, rs.get('shrink', False)))
         mism, stats = validate('replayfile', trace, nproc=1)
-        return dict(traces_validated_against_impl=1, events_validated=stats['events'] - 1, mismatches=mism, samples=[rp['ops']])
+        return dict(traces_validated_against_impl=1, events_validated=stats['events'] - 1, mismatches=mism, samples=[sample_of(rp['ops'])])
     raise ToolError('unknown job kind ' + kind)
